@@ -190,3 +190,160 @@ if "determinism.cache_policy_lru" not in CATALOGUE:
     for _p in ("lru", "lfu", "ttl", "fifo", "random", "slru", "sampled_lru", "clock", "two_queue"):
         _make_cache_scenario(_p)
         _make_cache_scenario(_p, large=True)
+
+
+if "determinism.parallel_same_instant_fanin" not in CATALOGUE:
+
+    @scenario("determinism.parallel_same_instant_fanin", "determinism")
+    def parallel_same_instant_fanin(seed, params):
+        """ParallelSimulation: partitions A and B both send to an order-sensitive entity in partition C events
+        that arrive on the same nanosecond.  Which of two same-instant arrivals C sees first must not depend on
+        how fast the worker threads happen to run (env HSVERIF_C03_SLOW names the partition slowed in real time)."""
+        import os
+        import time as _t
+
+        from happysimulator.core.temporal import Instant
+        from happysimulator.parallel import ParallelSimulation, PartitionLink, SimulationPartition
+
+        slow = os.environ.get("HSVERIF_C03_SLOW", "")
+        rng = random.Random(seed)
+        lat = rng.choice([0.1, 0.25, 0.05])
+
+        class Ledger(Entity):
+            """Order-sensitive: a debit is rejected unless the matching credit arrived before it."""
+
+            def __init__(self):
+                super().__init__("ledger")
+                self.order = []
+                self.balance = 0
+                self.rejected = 0
+
+            def handle_event(self, event):
+                md = event.context["metadata"]
+                self.order.append([self._clock.now.nanoseconds, event.event_type, md["i"]])
+                if event.event_type == "Credit":
+                    self.balance += 1
+                elif self.balance > 0:
+                    self.balance -= 1
+                else:
+                    self.rejected += 1
+                return None
+
+        ledger = Ledger()
+
+        class Sender(Entity):
+            def __init__(self, name, kind):
+                super().__init__(name)
+                self.kind = kind
+                self.sent = 0
+
+            def handle_event(self, event):
+                if slow == self.name[-1]:
+                    _t.sleep(0.002)  # real time, not simulated time
+                self.sent += 1
+                i = event.context["metadata"]["i"]
+                return [Event(time=self.now + lat, event_type=self.kind, target=ledger, context={"metadata": {"i": i}})]
+
+        a, b = Sender("senderA", "Credit"), Sender("senderB", "Debit")
+        parts = [
+            SimulationPartition(name="A", entities=[a]),
+            SimulationPartition(name="B", entities=[b]),
+            SimulationPartition(name="C", entities=[ledger]),
+        ]
+        links = [PartitionLink("A", "C", lat), PartitionLink("B", "C", lat)]
+        ps = ParallelSimulation(parts, end_time=Instant.from_seconds(lat * 40), links=links, window_size=lat)
+        n = 12
+        for i in range(n):
+            t = int(lat * 1e9) * (i + 1)
+            ps.schedule(ev(t, "Go", a, i=i), partition="A")
+            ps.schedule(ev(t, "Go", b, i=i), partition="B")
+        return Scenario(ps, {"ledger": ledger, "senderA": a, "senderB": b}, "determinism", True, 2 * n, extras={"per_entity_only": True})
+
+
+if "determinism.lb_keyless_consistent_hash" not in CATALOGUE:
+
+    def _make_lb_keyless(sname):
+        @scenario(f"determinism.lb_keyless_{sname}", "determinism")
+        def lb_keyless(seed, params, sname=sname):
+            """LoadBalancer strategies fed with requests that carry NO client/session/key metadata (what a plain
+            Source produces): which backend serves a request must not depend on how many events the interpreter
+            created earlier, nor on the hash seed."""
+            from happysimulator.components.common import Sink
+            from happysimulator.components.load_balancer import (
+                ConsistentHash,
+                IPHash,
+                LeastConnections,
+                LoadBalancer,
+                PowerOfTwoChoices,
+                Random,
+                RoundRobin,
+            )
+            from happysimulator.components.server import Server
+
+            rng = random.Random(seed)
+            strategy = {
+                "consistent_hash": lambda: ConsistentHash(),
+                "ip_hash": lambda: IPHash(),
+                "round_robin": lambda: RoundRobin(),
+                "random": lambda: Random(),
+                "power_of_two": lambda: PowerOfTwoChoices(),
+                "least_connections": lambda: LeastConnections(),
+            }[sname]()
+            sink = Sink("sink")
+            backends = [Server(f"backend{i}", concurrency=1, service_time=ConstantLatency(0.003 + 0.001 * i), downstream=sink) for i in range(4)]
+            lb = LoadBalancer("lb", backends=backends, strategy=strategy)
+            sim = make_sim([lb, sink, *backends], 30.0)
+            t = 0
+            for i in range(60):
+                t += rng.choice([500_000, 2_000_000, 7_000_000])
+                sim.schedule(ev(t, "Request", lb, seq=i))
+            return Scenario(sim, {"lb": lb, "sink": sink, **{b.name: b for b in backends}}, "determinism", True, 60)
+
+        return lb_keyless
+
+    for _s in ("consistent_hash", "ip_hash", "round_robin", "random", "power_of_two", "least_connections"):
+        _make_lb_keyless(_s)
+
+    @scenario("determinism.crdt_store_late_joiner", "determinism")
+    def crdt_store_late_joiner(seed, params):
+        """CRDTStores gossiping G-counters; a fourth store joins later, so `add_peers()` is called a second time
+        on stores that already have peers.  Which peer a store gossips to must not depend on object addresses."""
+        from happysimulator.components.crdt import CRDTStore, GCounter
+        from happysimulator.components.network.link import NetworkLink
+        from happysimulator.components.network.network import Network
+
+        rng = random.Random(seed)
+        net = Network(name="net")
+        stores = [CRDTStore(f"s{i}", network=net, crdt_factory=lambda nid: GCounter(nid), gossip_interval=0.05 + 0.01 * i) for i in range(4)]
+        for i, a in enumerate(stores):
+            for b in stores[i + 1 :]:
+                net.add_bidirectional_link(a, b, NetworkLink(name=f"l_{a.name}_{b.name}", latency=ConstantLatency(0.002 + 0.001 * i)))
+        first = stores[:3]
+        for s in first:
+            s.add_peers([o for o in first if o is not s])
+        # the late joiner: every existing store learns about it through a second add_peers() call
+        stores[3].add_peers(first)
+        for s in first:
+            s.add_peers([stores[3]] + [o for o in first if o is not s][:1])
+
+        class Writer(Entity):
+            def __init__(self):
+                super().__init__("writer")
+                self.writes = 0
+
+            def handle_event(self, event):
+                md = event.context["metadata"]
+                self.writes += 1
+                return [Event(time=self.now, event_type="Write", target=stores[md["s"]], context={"metadata": {"key": md["k"], "operation": "increment", "value": md["v"]}})]
+
+        w = Writer()
+        sim = make_sim([net, w, *stores], 6.0)
+        for s in stores:
+            g = s.get_gossip_event()
+            if g is not None:
+                sim.schedule(g)
+        t = 0
+        for i in range(40):
+            t += rng.choice([10_000_000, 40_000_000, 90_000_000])
+            sim.schedule(ev(t, "Go", w, s=rng.randrange(4), k=f"k{rng.randrange(3)}", v=1 + i % 3))
+        return Scenario(sim, {"net": net, "writer": w, **{s.name: s for s in stores}}, "determinism", True, 40)
